@@ -88,6 +88,99 @@ def check_subset(run, E):
         yield ck
 
 
+def check_split(run, E):
+    """split_obs / split_channel (both classes): one part per distinct descriptor value; part p holds exactly the rows (columns)
+    whose value is the p-th distinct value, each once, in original order -- so the parts PARTITION what is split --; the
+    measurements and the split descriptors of a part are gathered by that one selection, everything else is passed through
+    (Dataset parts are labelled with their value)"""
+    from vf.pyvc.core import Contract, ufunc, boxI
+    from contracts.common import unique_inverse_model
+
+    def ui(E, array):
+        values, _ = unique_inverse_model(E, array)
+        ct = E.toV(array)
+        n = E.as_int(E.seq_len(array))
+        inv = ufunc('inverse_index', 2, 'int')
+
+        def elem(j):
+            z = inv(ct, boxI(j))
+            E.fact(z3.Implies(z3.And(j >= 0, j < n), z3.And(z >= 0, z < values.zlen())))
+            return SV(z, 'int')
+        return values, SeqV(length=n, elem=elem, kind='array', esort='int')
+    E.contracts['rsatoolbox.util.data_utils.get_unique_inverse'] = Contract(
+        'rsatoolbox.util.data_utils.get_unique_inverse', define=ui,
+        doc='(distinct values in order of first appearance, for every entry the position of its value in that list)')
+
+    def dd_copy(E, d):
+        c = E.app('copy', [d], 'obj', cls='DescDict')
+        return c
+
+    def dd_set(E, d, key, val):
+        # in-place store into a LOCAL copy: the object now denotes the updated dictionary
+        old = Obj(d.term, 'DescDict', app=d.app)
+        new = E.app('dict-with', [old, key, val], 'obj', cls='DescDict')
+        d.term, d.app = new.term, new.app
+    E.methods[('DescDict', 'copy')] = dd_copy
+    E.methods[('DescDict', '__setitem__')] = dd_set
+    table = [('Dataset', 'split_obs', 'obs_descriptors', 0, 2), ('Dataset', 'split_channel', 'channel_descriptors', 1, 2),
+             ('TemporalDataset', 'split_obs', 'obs_descriptors', 0, 3), ('TemporalDataset', 'split_channel', 'channel_descriptors', 1, 3)]
+    for cls, meth, which, axis, rank in table:
+        ck = FuncCheck(E, run, 'C11', DS + cls + '.' + meth, '')
+
+        def mk(E, cls=cls):
+            return [E.sym_obj('self', cls), E.sym_val('by', tag='scalar')], {}, []
+
+        def post(ck, E, args, kw, p, cls=cls, which=which, axis=axis, rank=rank):
+            self, by = args
+            res = p.value
+            col = E.getitem(E.getattr(self, which), by)
+            values, inv = ui(E, col)
+            n = inv.zlen()
+            ok = isinstance(res, SeqV)
+            ck.ensure('post/returns-a-list-of-parts', z3.BoolVal(ok), structure=True)
+            if not ok:
+                return
+            ck.ensure('post/one-part-per-distinct-value', res.zlen() == values.zlen())
+            q = z3.Int(fresh_name('part'))
+            in_q = z3.And(q >= 0, q < values.zlen())
+            part = E.seq_elem(res, q)
+            okp = isinstance(part, Obj) and part.cls == cls
+            ck.ensure('post/parts-are-of-the-same-kind', z3.BoolVal(okp), structure=True, note=repr(part))
+            if not okp:
+                return
+            m = part.fields.get('measurements')
+            okm = (isinstance(m, SV) and m.app is not None and m.app[0] == 'getitem' and isinstance(m.app[1][1], tuple)
+                   and len(m.app[1][1]) > axis and isinstance(m.app[1][1][axis], SeqV)
+                   and all(x == slice(None, None, None) for k, x in enumerate(m.app[1][1]) if k != axis))
+            ck.ensure('post/measurements-are-gathered-along-the-split-axis-only', z3.BoolVal(bool(okm)), structure=True, note=repr(m))
+            if not okm:
+                return
+            ck.ensure_eq('post/measurements-come-from-the-source', m.app[1][0], E.getattr(self, 'measurements'))
+            sel = m.app[1][1][axis]
+            L = sel.zlen()
+            t = z3.Int(fresh_name('t'))
+            in_t = z3.And(t >= 0, t < L)
+            st = E.as_int(E.seq_elem(sel, t))
+            inv_at = lambda j: E.as_int(E.seq_elem(inv, j))
+            ck.ensure('post/every-member-of-part-p-carries-the-p-th-value',
+                      z3.Implies(z3.And(in_q, in_t), z3.And(st >= 0, st < n, inv_at(st) == q)))
+            j = z3.Int(fresh_name('j'))
+            pj = sel.inv(j) if sel.inv is not None else None
+            ck.ensure('post/every-item-lies-in-the-part-of-its-value', z3.BoolVal(False) if pj is None else z3.Implies(
+                z3.And(in_q, j >= 0, j < n, inv_at(j) == q), z3.And(pj >= 0, pj < L, E.as_int(E.seq_elem(sel, pj)) == j)))
+            t2 = z3.Int(fresh_name('t'))
+            ck.ensure('post/each-once-in-original-order',
+                      z3.Implies(z3.And(in_q, in_t, t2 > t, t2 < L), E.as_int(E.seq_elem(sel, t2)) > st))
+            ck.ensure_eq('post/split-descriptors-gathered-by-the-same-selection', part.fields.get(which),
+                         E.app('rsatoolbox.util.descriptor_utils.subset_descriptor', [E.getattr(self, which), sel]))
+            others = ('obs_descriptors', 'channel_descriptors') + (('time_descriptors',) if cls == 'TemporalDataset' else ())
+            for other in others:
+                if other != which:
+                    ck.ensure_eq('post/passed-through-' + other, part.fields.get(other), E.getattr(self, other))
+        ck.execute(mk, post=post, allow_raise=lambda *a: None)
+        yield ck
+
+
 def run(run):
     E = engine(run)
     E.schemas.pop('Dataset', None)
@@ -98,6 +191,8 @@ def run(run):
         fails += ck.failed
     # result objects are built by the class constructors: treat them as record constructors
     for ck in check_subset(run, _ctor_engine(run)):
+        fails += ck.failed
+    for ck in check_split(run, _ctor_engine(run)):
         fails += ck.failed
     finish_engine(E2, run)
     run.trust('np.argsort(kind="stable") returns the stable sorting permutation; num_index / subset_descriptor contracts (C10 K6/K7) '
